@@ -1,8 +1,500 @@
-//! C16 (stub; being written)
+//! C16 Policies compile, satisfy and canonicalise consistently.
+
 use crate::engine::*;
+use crate::gen::policy::*;
+use serde_json::json;
+use simplicity::elements::bitcoin::hashes::{sha256, Hash as _};
+use simplicity::elements::bitcoin::key::XOnlyPublicKey;
+use simplicity::elements::locktime::Height;
+use simplicity::elements::secp256k1_zkp as secp;
+use simplicity::elements::{self, SchnorrSig, SchnorrSighashType};
+use simplicity::jet::ElementsTxEnv;
+use simplicity::node::SimpleFinalizer;
+use simplicity::policy::SatisfierError;
+use simplicity::{types, BitMachine, Policy, RedeemNode, Satisfier, Value};
+use std::collections::BTreeMap;
+use std::sync::Arc;
 
-pub const SPEC: Spec = Spec { rule: "stub", ..Spec::base("C16", "stub", case) };
+pub const SPEC: Spec = Spec {
+    rule: "a policy tree of depth <= 5 (leaves: pk over a pool of <= 4 keys derived from generated secrets, sha256 over a pool of <= 3 generated preimages, after(n) 1 <= n <= 499999999, older(n: u16), trivial, unsatisfiable(entropy); inner nodes and, or, thresh(k, 1..5 children) with 1 <= k <= n; node budget 4..40; in 3 of 8 cases and/or nodes only get leaves as children, so that compound nodes sit below thresholds only), an Elements environment whose version (2, 1, 3), lock_time (0, a policy value -1/0/+1, random height, 499999999, time-based) and input sequences (one or two inputs; a policy value -1/0/+1, final, 0xfffffffe, 0, disable flag, time flag, junk in unused bits, random) are drawn from the stream (the last third of the stream, at most 64 bytes, drives availability, reordering and environment), one availability bit per distinct key (valid BIP-340 signature of the environment's sighash_all, checked with libsecp256k1) and per distinct hash (its preimage), and a reordering of the children of every and/or/thresh node. Leaf truth = the one-leaf compiled program, finalised with the available witness, runs in the environment (the satisfier's check_after / check_older answers are these observations by construction; the one-leaf policy's satisfy() must agree). Oracle: cmr() = commit().cmr(); satisfy() is Ok exactly when the boolean model (and = both, or = either, thresh = at least k) is true; when Ok the program has the policy's cmr, runs in the environment, prunes to a program with the same cmr that runs; sorted() is idempotent, only reorders children, and is equal for the policy and its reordering; normalized() and sorted() keep the model truth value. Non-trivial: >= 3 leaves, >= 1 or/thresh node, and both a true and a false leaf. Distinct by (policy incl. entropy, availability bits, environment settings, reordering).",
+    design_ref: "§6 C16",
+    max_len: 400,
+    quick_cases: 15_000,
+    thorough_cases: 300_000,
+    ..Spec::base("C16", "Policies compile, satisfy and canonicalise consistently", case)
+};
 
-pub fn case(_cx: &mut Case) -> CaseResult {
+const SORT_SIG: &str = "policy-sort-does-not-sort-nested-and-or-children";
+
+/// What the satisfier knows: only facts that are true of the environment.
+struct Tables {
+    sigs: BTreeMap<XOnlyPublicKey, SchnorrSig>,
+    preimages: BTreeMap<sha256::Hash, [u8; 32]>,
+    after: BTreeMap<u32, bool>,
+    older: BTreeMap<u16, bool>,
+}
+
+struct Sat<'a, 'brand> {
+    ctx: types::Context<'brand>,
+    t: &'a Tables,
+}
+
+impl<'brand> Satisfier<'brand, XOnlyPublicKey> for Sat<'_, 'brand> {
+    fn lookup_signature(&self, pk: &XOnlyPublicKey) -> Option<SchnorrSig> {
+        self.t.sigs.get(pk).copied()
+    }
+    fn lookup_sha256(&self, h: &sha256::Hash) -> Option<[u8; 32]> {
+        self.t.preimages.get(h).copied()
+    }
+    fn check_older(&self, s: elements::Sequence) -> bool {
+        let n = u16::try_from(s.0).expect("older() queries are 16-bit");
+        *self.t.older.get(&n).expect("older value of the policy was observed")
+    }
+    fn check_after(&self, l: elements::LockTime) -> bool {
+        *self.t.after.get(&l.to_consensus_u32()).expect("after value of the policy was observed")
+    }
+    fn inference_context(&self) -> &types::Context<'brand> {
+        &self.ctx
+    }
+}
+
+fn satisfy(p: &Pol, t: &Tables, env: &ElementsTxEnv) -> Result<Arc<RedeemNode>, SatisfierError> {
+    types::Context::with_context(|ctx| {
+        let s = Sat { ctx, t };
+        p.satisfy(&s, env)
+    })
+}
+
+fn runs(prog: &Arc<RedeemNode>, env: &ElementsTxEnv) -> Result<(), String> {
+    let mut mac = BitMachine::for_program(prog).map_err(|e| format!("refused: {}", e))?;
+    match mac.exec(prog, env) {
+        Ok(v) if v == Value::unit() => Ok(()),
+        Ok(v) => Err(format!("output {} is not unit", v)),
+        Err(e) => Err(e.to_string()),
+    }
+}
+
+/// Compile a one-leaf policy without witness, finalise with the given witness values, run.
+fn one_leaf_runs(leaf: &Pol, wit: Vec<Value>, env: &ElementsTxEnv) -> Result<bool, String> {
+    let commit = leaf.commit();
+    let prog = commit.finalize(&mut SimpleFinalizer::new(wit.into_iter())).map_err(|e| harness_error(format!("one-leaf program {} does not finalise: {}", leaf, e)))?;
+    Ok(runs(&prog, env).is_ok())
+}
+
+fn leaves<'a>(p: &'a Pol, out: &mut Vec<&'a Pol>) {
+    match p {
+        Policy::And { left, right } | Policy::Or { left, right } => {
+            leaves(left, out);
+            leaves(right, out);
+        }
+        Policy::Threshold(_, subs) => subs.iter().for_each(|s| leaves(s, out)),
+        l => out.push(l),
+    }
+}
+
+#[derive(Default)]
+struct Shape {
+    leaves: usize,
+    ands: usize,
+    ors: usize,
+    threshs: usize,
+    depth: usize,
+    /// thresholds with more true children than k (the satisfier has to choose)
+    thresh_choice: usize,
+    thresh_exact: usize,
+    or_both: usize,
+}
+
+/// The boolean model.
+fn truth(p: &Pol, leaf: &BTreeMap<Pol, bool>, depth: usize, sh: &mut Shape) -> Result<bool, String> {
+    sh.depth = sh.depth.max(depth);
+    Ok(match p {
+        Policy::And { left, right } => {
+            sh.ands += 1;
+            let l = truth(left, leaf, depth + 1, sh)?;
+            let r = truth(right, leaf, depth + 1, sh)?;
+            l && r
+        }
+        Policy::Or { left, right } => {
+            sh.ors += 1;
+            let l = truth(left, leaf, depth + 1, sh)?;
+            let r = truth(right, leaf, depth + 1, sh)?;
+            if l && r {
+                sh.or_both += 1;
+            }
+            l || r
+        }
+        Policy::Threshold(k, subs) => {
+            sh.threshs += 1;
+            let mut n = 0;
+            for s in subs {
+                if truth(s, leaf, depth + 1, sh)? {
+                    n += 1;
+                }
+            }
+            if n > *k {
+                sh.thresh_choice += 1;
+            }
+            if n == *k {
+                sh.thresh_exact += 1;
+            }
+            n >= *k
+        }
+        l => {
+            sh.leaves += 1;
+            *leaf.get(l).ok_or_else(|| harness_error(format!("leaf {} has no truth value", l)))?
+        }
+    })
+}
+
+/// Does some and/or node have a child that is itself an and/or/thresh node?  `Policy::sort`
+/// sorts *clones* of the children of and/or, so everything below an and/or node stays unsorted.
+fn and_or_with_compound_child(p: &Pol) -> bool {
+    let compound = |c: &Pol| matches!(c, Policy::And { .. } | Policy::Or { .. } | Policy::Threshold(..));
+    match p {
+        Policy::And { left, right } | Policy::Or { left, right } => compound(left) || compound(right) || and_or_with_compound_child(left) || and_or_with_compound_child(right),
+        Policy::Threshold(_, subs) => subs.iter().any(and_or_with_compound_child),
+        _ => false,
+    }
+}
+
+/// The narrower shape: an and/or node directly inside an and/or node.
+fn and_or_inside_and_or(p: &Pol) -> bool {
+    let ao = |c: &Pol| matches!(c, Policy::And { .. } | Policy::Or { .. });
+    match p {
+        Policy::And { left, right } | Policy::Or { left, right } => ao(left) || ao(right) || and_or_inside_and_or(left) || and_or_inside_and_or(right),
+        Policy::Threshold(_, subs) => subs.iter().any(and_or_inside_and_or),
+        _ => false,
+    }
+}
+
+/// Reference canonical form (children of commutative nodes canonicalised, then ordered).
+fn canon(p: &Pol) -> Pol {
+    match p {
+        Policy::And { left, right } => {
+            let (a, b) = (canon(left), canon(right));
+            let (a, b) = if a <= b { (a, b) } else { (b, a) };
+            Policy::And { left: Arc::new(a), right: Arc::new(b) }
+        }
+        Policy::Or { left, right } => {
+            let (a, b) = (canon(left), canon(right));
+            let (a, b) = if a <= b { (a, b) } else { (b, a) };
+            Policy::Or { left: Arc::new(a), right: Arc::new(b) }
+        }
+        Policy::Threshold(k, subs) => {
+            let mut s: Vec<Pol> = subs.iter().map(canon).collect();
+            s.sort();
+            Policy::Threshold(*k, s)
+        }
+        l => l.clone(),
+    }
+}
+
+fn entropy_bytes(p: &Pol, out: &mut Vec<u8>) {
+    let mut ls = vec![];
+    leaves(p, &mut ls);
+    for l in ls {
+        if let Policy::Unsatisfiable(e) = l {
+            out.extend_from_slice(&e.to_byte_array()[..2]);
+        }
+    }
+}
+
+pub fn case(cx: &mut Case) -> CaseResult {
+    // ---- generate ----
+    // The last third of the stream (at most 64 bytes) drives availability, environment and
+    // reordering, the rest drives the policy tree; so short streams still vary all of them.
+    let all = cx.src.rest();
+    let tail_len = (all.len() / 3).min(64);
+    let (head, tail) = all.split_at(all.len() - tail_len);
+    cx.src = Src::new(head);
+    let mut tsrc = Src::new(tail);
+    let max_nodes = [4usize, 8, 14, 24, 40][cx.src.weighted(&[1, 3, 5, 4, 2])];
+    let mut g = PolicyGen::new(max_nodes);
+    g.leaves_under_and_or = cx.src.chance(96);
+    let policy = {
+        let mut s = cx.src.clone();
+        let p = g.tree(&mut s, 0);
+        cx.src = s;
+        p
+    };
+    // one byte: bit i = signature of key i available, bit 4 + j = preimage of hash j available
+    let avail = tsrc.u8();
+    let key_avail: Vec<bool> = (0..g.keys.len()).map(|i| avail >> i & 1 == 1).collect();
+    let hash_avail: Vec<bool> = (0..g.hashes.len()).map(|j| avail >> (MAX_KEYS + j) & 1 == 1).collect();
+    // three bytes, expanded (xorshift; zero stays zero = identity) into the choices of the reordering
+    let perm_bytes = {
+        let mut x = ((tsrc.u8() as u32) << 16) | tsrc.u16() as u32;
+        let mut v = Vec::with_capacity(64);
+        for _ in 0..64 {
+            x ^= x << 13;
+            x ^= x >> 17;
+            x ^= x << 5;
+            v.push((x >> 11) as u8);
+        }
+        v
+    };
+    let permuted = permute(&policy, &mut Src::new(&perm_bytes));
+    let cfg = gen_env_cfg(&mut tsrc, &g.afters, &g.olders);
+
+    let env = build_env(&cfg);
+    let pol_text = policy.to_string();
+    cx.fp.write(pol_text.as_bytes());
+    let mut eb = vec![];
+    entropy_bytes(&policy, &mut eb);
+    cx.fp.write(&eb);
+    for b in key_avail.iter().chain(hash_avail.iter()) {
+        cx.fp.write(&[*b as u8]);
+    }
+    cx.fp.write_u64(cfg.version as u64);
+    cx.fp.write_u64(cfg.lock_time as u64);
+    for s in &cfg.sequences {
+        cx.fp.write_u64(*s as u64);
+    }
+    cx.fp.write_u64(cfg.ix as u64);
+    cx.fp.write(permuted.to_string().as_bytes());
+
+    // ---- what is available: signatures of the environment's sighash, preimages ----
+    let sighash = env.c_tx_env().sighash_all();
+    let msg = secp::Message::from_digest(sighash.to_byte_array());
+    let mut t = Tables { sigs: BTreeMap::new(), preimages: BTreeMap::new(), after: BTreeMap::new(), older: BTreeMap::new() };
+    for (k, avail) in g.keys.iter().zip(&key_avail) {
+        if *avail {
+            let sig = with_secp(|s| s.sign_schnorr_no_aux_rand(&msg, &k.keypair));
+            if with_secp(|s| s.verify_schnorr(&sig, &msg, &k.xonly)).is_err() {
+                return Err(harness_error("a freshly made signature does not verify"));
+            }
+            t.sigs.insert(k.xonly, SchnorrSig { sig, hash_ty: SchnorrSighashType::All });
+        }
+    }
+    for (h, avail) in g.hashes.iter().zip(&hash_avail) {
+        if *avail {
+            if sha256::Hash::hash(&h.preimage) != h.image {
+                return Err(harness_error("preimage does not hash to the image"));
+            }
+            t.preimages.insert(h.image, h.preimage);
+        }
+    }
+
+    // ---- truth of every distinct leaf, observed on the one-leaf program ----
+    let mut all_leaves = vec![];
+    leaves(&policy, &mut all_leaves);
+    let mut leaf_truth: BTreeMap<Pol, bool> = BTreeMap::new();
+    let mut stock_disagrees = false;
+    for l in &all_leaves {
+        if leaf_truth.contains_key(*l) {
+            continue;
+        }
+        let v = match l {
+            Policy::Trivial => {
+                if !one_leaf_runs(l, vec![], &env)? {
+                    return Err("the compiled trivial policy does not run".into());
+                }
+                true
+            }
+            Policy::Unsatisfiable(_) => {
+                if one_leaf_runs(l, vec![], &env)? {
+                    return Err("the compiled unsatisfiable policy runs successfully".into());
+                }
+                false
+            }
+            Policy::Key(pk) => match t.sigs.get(pk) {
+                Some(sig) => {
+                    if !one_leaf_runs(l, vec![Value::u512(sig.sig.serialize())], &env)? {
+                        return Err(format!("the compiled {} does not run with a signature of sighash_all {} that libsecp256k1 accepts", l, sighash));
+                    }
+                    true
+                }
+                None => false,
+            },
+            Policy::Sha256(h) => match t.preimages.get(h) {
+                Some(pre) => {
+                    if !one_leaf_runs(l, vec![Value::u256(*pre)], &env)? {
+                        return Err(format!("the compiled {} does not run with its preimage {}", l, hex(pre)));
+                    }
+                    true
+                }
+                None => false,
+            },
+            Policy::After(n) => {
+                let v = one_leaf_runs(l, vec![], &env)?;
+                t.after.insert(*n, v);
+                // the crate's stock answer, for the class counters only
+                let h = Height::from_consensus(*n).map_err(|e| harness_error(format!("after({}) out of range: {}", n, e)))?;
+                let stock = types::Context::with_context(|ctx| Satisfier::<XOnlyPublicKey>::check_after(&(&ctx, env.tx().lock_time), elements::LockTime::Blocks(h)));
+                cx.label_if(stock && !v, "stock (ctx, LockTime) satisfier says true, check_lock_height fails");
+                cx.label_if(!stock && v, "stock (ctx, LockTime) satisfier says false, check_lock_height passes");
+                if stock != v {
+                    stock_disagrees = true;
+                    cx.note(|| format!("stock (ctx, LockTime) satisfier answers {} for {} but the program's verdict is {}", stock, l, v));
+                }
+                v
+            }
+            Policy::Older(n) => {
+                let v = one_leaf_runs(l, vec![], &env)?;
+                t.older.insert(*n, v);
+                let seq = env.tx().input[cfg.ix].sequence;
+                let stock = types::Context::with_context(|ctx| Satisfier::<XOnlyPublicKey>::check_older(&(&ctx, seq), elements::Sequence((*n).into())));
+                cx.label_if(stock && !v, "stock (ctx, Sequence) satisfier says true, check_lock_distance fails");
+                cx.label_if(!stock && v, "stock (ctx, Sequence) satisfier says false, check_lock_distance passes");
+                if stock != v {
+                    stock_disagrees = true;
+                    cx.note(|| format!("stock (ctx, Sequence) satisfier answers {} for {} but the program's verdict is {}", stock, l, v));
+                }
+                v
+            }
+            _ => return Err(harness_error("inner node among the leaves")),
+        };
+        leaf_truth.insert((*l).clone(), v);
+    }
+
+    // ---- model ----
+    let mut sh = Shape::default();
+    let expected = truth(&policy, &leaf_truth, 0, &mut sh)?;
+    let n_true = all_leaves.iter().filter(|l| leaf_truth[**l]).count();
+    let mixed = n_true > 0 && n_true < all_leaves.len();
+    let has_timelock = all_leaves.iter().any(|l| matches!(l, Policy::After(_) | Policy::Older(_)));
+    let repeated_leaf = leaf_truth.len() < all_leaves.len();
+    let compound_under_and_or = and_or_with_compound_child(&policy);
+    let nested_and_or = and_or_inside_and_or(&policy);
+    cx.nontrivial = sh.leaves >= 3 && (sh.ors + sh.threshs) >= 1 && mixed;
+    cx.label_if(expected, "model: satisfiable");
+    cx.label_if(!expected, "model: unsatisfiable");
+    cx.label_if(sh.threshs > 0, "has threshold");
+    cx.label_if(sh.ors > 0, "has or");
+    cx.label_if(sh.ands > 0, "has and");
+    cx.label_if(has_timelock, "has timelock leaf");
+    cx.label_if(all_leaves.iter().any(|l| matches!(l, Policy::After(_)) && leaf_truth[*l]), "after leaf true");
+    cx.label_if(all_leaves.iter().any(|l| matches!(l, Policy::After(_)) && !leaf_truth[*l]), "after leaf false");
+    cx.label_if(all_leaves.iter().any(|l| matches!(l, Policy::Older(_)) && leaf_truth[*l]), "older leaf true");
+    cx.label_if(all_leaves.iter().any(|l| matches!(l, Policy::Older(_)) && !leaf_truth[*l]), "older leaf false");
+    cx.label_if(all_leaves.iter().any(|l| matches!(l, Policy::Key(_)) && leaf_truth[*l]), "key leaf with signature");
+    cx.label_if(all_leaves.iter().any(|l| matches!(l, Policy::Key(_)) && !leaf_truth[*l]), "key leaf without signature");
+    cx.label_if(all_leaves.iter().any(|l| matches!(l, Policy::Sha256(_)) && leaf_truth[*l]), "hash leaf with preimage");
+    cx.label_if(all_leaves.iter().any(|l| matches!(l, Policy::Sha256(_)) && !leaf_truth[*l]), "hash leaf without preimage");
+    cx.label_if(all_leaves.iter().any(|l| matches!(l, Policy::Trivial)), "has trivial leaf");
+    cx.label_if(all_leaves.iter().any(|l| matches!(l, Policy::Unsatisfiable(_))), "has unsatisfiable leaf");
+    cx.label_if(repeated_leaf, "a leaf occurs more than once");
+    cx.label_if(mixed, "mixed leaf truths");
+    cx.label_if(sh.thresh_choice > 0, "threshold with more than k true children");
+    cx.label_if(sh.thresh_exact > 0, "threshold with exactly k true children");
+    cx.label_if(sh.or_both > 0, "or with both children true");
+    cx.label_if(sh.depth >= 3, "depth >= 3");
+    cx.label_if(sh.depth == MAX_DEPTH, "depth = 5");
+    cx.label_if(sh.leaves >= 10, ">= 10 leaves");
+    cx.label_if(permuted != policy, "reordering differs from the policy");
+    cx.label_if(compound_under_and_or, "and/or node with a compound child");
+    cx.label_if(!compound_under_and_or && (sh.ands + sh.ors + sh.threshs) >= 2, "no compound child under and/or, >= 2 inner nodes");
+    cx.label_if(nested_and_or, "and/or nested directly in and/or");
+    cx.label_if(stock_disagrees, "stock lock-time satisfier disagrees with the jet");
+    cx.label_if(cfg.sequences.len() == 2, "env: two inputs");
+    cx.label_if(cfg.version != 2, "env: version != 2");
+    cx.label_if(cfg.lock_time >= 500_000_000, "env: time-based lock_time");
+    cx.label_if(cfg.sequences.iter().all(|s| *s == u32::MAX), "env: transaction final");
+    {
+        let avail_keys: Vec<String> = g.keys.iter().zip(&key_avail).map(|(k, a)| format!("{}:{}", k.xonly, a)).collect();
+        let avail_hashes: Vec<String> = g.hashes.iter().zip(&hash_avail).map(|(h, a)| format!("{}:{}", h.image, a)).collect();
+        let lt: Vec<String> = leaf_truth.iter().map(|(l, v)| format!("{}={}", l, v)).collect();
+        let cfg2 = cfg.clone();
+        let perm_text = permuted.to_string();
+        let pt = pol_text.clone();
+        cx.set_sample(move || json!({"policy": pt, "reordered": perm_text, "signature_available": avail_keys, "preimage_available": avail_hashes, "env": {"version": cfg2.version, "lock_time": cfg2.lock_time, "sequences": cfg2.sequences, "input_index": cfg2.ix}, "leaf_truth": lt, "model_verdict": expected}));
+    }
+    if cx.verbose {
+        eprintln!("  policy    {}", pol_text);
+        eprintln!("  reordered {}", permuted);
+        eprintln!("  env       {:?}", cfg);
+        for (k, a) in g.keys.iter().zip(&key_avail) {
+            eprintln!("  key {} (secret {}) signature available: {}", k.xonly, hex(&k.secret), a);
+        }
+        for (h, a) in g.hashes.iter().zip(&hash_avail) {
+            eprintln!("  hash {} (preimage {}) preimage available: {}", h.image, hex(&h.preimage), a);
+        }
+        for (l, v) in &leaf_truth {
+            eprintln!("  leaf {} is {}", l, v);
+        }
+        eprintln!("  model verdict: {}", expected);
+    }
+
+    // ---- (1) commitment root ----
+    let cmr = policy.cmr();
+    let commit = policy.commit();
+    if commit.cmr() != cmr {
+        return Err(format!("cmr() = {} but commit().cmr() = {}; policy {}", cmr, commit.cmr(), pol_text));
+    }
+
+    // ---- one-leaf policies: satisfy agrees with the observed leaf truth ----
+    for (l, v) in &leaf_truth {
+        match (satisfy(l, &t, &env), *v) {
+            (Ok(p), true) => {
+                if p.cmr() != l.cmr() {
+                    return Err(format!("satisfied one-leaf policy {} has cmr {} instead of {}", l, p.cmr(), l.cmr()));
+                }
+                runs(&p, &env).map_err(|e| format!("satisfied one-leaf policy {} does not run: {}", l, e))?;
+            }
+            (Err(_), false) => {}
+            (Ok(_), false) => return Err(format!("one-leaf policy {} is false in the environment {:?} but satisfy() succeeds", l, cfg)),
+            (Err(e), true) => return Err(format!("one-leaf policy {} is true in the environment {:?} but satisfy() fails: {:?}", l, cfg, e)),
+        }
+    }
+
+    // ---- (2) satisfy succeeds exactly when the model says true ----
+    let describe = || format!("policy {}; env {:?}; leaf truths {:?}", pol_text, cfg, leaf_truth.iter().map(|(l, v)| format!("{}={}", l, v)).collect::<Vec<_>>());
+    match satisfy(&policy, &t, &env) {
+        Err(e) => {
+            if expected {
+                return Err(format!("the model says satisfiable but satisfy() fails with {:?}; {}", e, describe()));
+            }
+            cx.label_if(matches!(e, SatisfierError::Unsatisfiable), "satisfy: Unsatisfiable");
+            cx.label_if(matches!(e, SatisfierError::AssemblyFailed(_)), "satisfy: AssemblyFailed on a false policy");
+        }
+        Ok(redeem) => {
+            if !expected {
+                return Err(format!("the model says unsatisfiable but satisfy() succeeds; {}", describe()));
+            }
+            cx.label("satisfy: Ok");
+            // ---- (3) same root, runs, prunes to the same root, still runs ----
+            if redeem.cmr() != cmr {
+                return Err(format!("satisfied program has cmr {} but the policy has {}; {}", redeem.cmr(), cmr, describe()));
+            }
+            runs(&redeem, &env).map_err(|e| format!("the program returned by satisfy() does not run: {}; {}", e, describe()))?;
+            let pruned = redeem.prune(&env).map_err(|e| format!("pruning the program returned by satisfy() fails: {}; {}", e, describe()))?;
+            if pruned.cmr() != cmr {
+                return Err(format!("pruned program has cmr {} but the policy has {}; {}", pruned.cmr(), cmr, describe()));
+            }
+            runs(&pruned, &env).map_err(|e| format!("the pruned satisfied program does not run: {}; {}", e, describe()))?;
+        }
+    }
+
+    // ---- (4) canonical sorting ----
+    let sorted = policy.clone().sorted();
+    if sorted.clone().sorted() != sorted {
+        return Err(format!("sorted() is not idempotent: {} -> {} -> {}", pol_text, sorted, sorted.clone().sorted()));
+    }
+    if canon(&sorted) != canon(&policy) {
+        return Err(format!("sorted() did more than reorder children: {} -> {}", pol_text, sorted));
+    }
+    if truth(&sorted, &leaf_truth, 0, &mut Shape::default())? != expected {
+        return Err(format!("sorted() changed the truth value: {} -> {}", pol_text, sorted));
+    }
+    let sorted_perm = permuted.clone().sorted();
+    if sorted_perm != sorted {
+        let what = || format!("sorted() differs between a policy and a reordering of it: {} -> {}, but {} -> {}", pol_text, sorted, permuted, sorted_perm);
+        if compound_under_and_or {
+            cx.known_or_fail(SORT_SIG, what)?;
+        } else {
+            return Err(what());
+        }
+    } else if permuted != policy {
+        cx.label("reordering differs and sorts to the same policy");
+        cx.label_if(sorted != policy && sorted_perm != permuted, "reordering differs, both change under sorted(), same result");
+    }
+
+    // ---- normalized() keeps the truth value ----
+    let normalized = policy.clone().normalized();
+    cx.label_if(normalized != policy, "normalized() changes the policy");
+    if truth(&normalized, &leaf_truth, 0, &mut Shape::default())? != expected {
+        return Err(format!("normalized() changed the truth value from {}: {} -> {}; leaf truths {:?}", expected, pol_text, normalized, leaf_truth.iter().map(|(l, v)| format!("{}={}", l, v)).collect::<Vec<_>>()));
+    }
     Ok(())
 }
